@@ -107,3 +107,311 @@ pub proof fn lemma_res_unmerged_rfc(r: Seq<u8>, b: Seq<u8>, n: Seq<u8>)
     if !lone_empty_unshielded(r_path(r), fa, false) { lemma_normalize_segs(r_path(r), fa, false); }
 }
 } // verus!
+verus! {
+/// C06, non-merging branches, final dot segment: the text rds_text writes has the normalized sequence followed by one
+/// empty segment (the trailing '/' of RFC 3986 5.2.4). Excluded: nothing left (then nothing is pushed), and the text
+/// "/./" after an authority (the shielded lone empty segment), where push rewrites the shield.
+pub proof fn lemma_rds_segs(p: Seq<u8>, fa: bool, at0: bool)
+    requires path_shape(p), dot_last(p), !lone_empty_unshielded(p, fa, at0),
+        !p_is_empty(normalize_text(p, fa, at0)), !(fa && is_shield3(normalize_text(p, fa, at0))),
+    ensures segs(rds_text(p, fa, at0)) =~= (shield_seq(p, fa, at0) + norm_segs(p)).push(sq0()),
+{
+    let t = normalize_text(p, fa, at0);
+    lemma_normalize_segs(p, fa, at0);
+    assert(seg_shape(sq0()));
+    lemma_push_list(t, sq0(), fa, at0);
+    reveal(push_text0);
+    assert(push_text(t, sq0(), fa, at0) == push_text0(t, sq0(), fa, at0));
+}
+} // verus!
+verus! {
+// ---- C06, merge branch: the symbolic push / append folds against the RFC fold, on segment level ----
+
+/// segments without the leading '.' shield
+pub open spec fn usegs(p: Seq<u8>) -> Seq<Seq<u8>> {
+    let l = segs(p);
+    if l.len() > 0 && is_dot(l[0]) { l.drop_first() } else { l }
+}
+/// the last '/'-piece of a non-empty path is the last element of its segment sequence; the others are the segments of
+/// the text cut before it
+pub proof fn lemma_last_seg(p: Seq<u8>)
+    requires !p_is_empty(p),
+    ensures segs(p).len() > 0, segs(p).last() == last_seg(p),
+{
+    let fo = p_first_off(p);
+    let st = seg_start_of(p, fo, p.len() as int);
+    lemma_seg_start_of(p, fo, p.len() as int);
+    let s = p.subrange(st, p.len() as int);
+    assert(no_slash(s)) by { assert(forall|j: int| 0 <= j < s.len() ==> #[trigger] s[j] == p[st + j]); }
+    if st > fo {
+        let q = p.subrange(0, st - 1);
+        assert(p =~= q + sq1(47) + s);
+        lemma_split_push(q, s, fo);
+    } else {
+        lemma_split_single(p, fo);
+    }
+}
+/// the corner cases in which the library's text model deviates from list semantics (each is a recorded finding or a
+/// consequence of "/" standing for both no segment and one empty segment)
+pub open spec fn sym_step_ok(p: Seq<u8>, s: Seq<u8>) -> bool {
+    let fo = p_first_off(p);
+    &&& !(s.len() == 0 && p_is_empty(p))                                             // empty segment onto an empty path: dropped
+    &&& (is_dotdot(s) && !p_is_empty(p) ==> !(p[fo] == 47 && seg_start_of(p, fo, p.len() as int) == fo + 1))   // pop on "//x"
+    &&& (is_dotdot(s) ==> !(segs(p).len() == 1 && is_dot(segs(p)[0])))               // pop on a lone shield "."
+    &&& (segs(p).len() >= 2 && is_dot(segs(p)[0]) ==> !is_dot(segs(p)[1]))           // "./." is not a shielded path
+}
+/// one symbolic push is one step of the RFC 3986 5.2.4 fold on the segments (modulo the shield), outside the corner cases
+pub proof fn lemma_sym_push_segs(p: Seq<u8>, s: Seq<u8>, fa: bool, at0: bool)
+    requires path_shape(p), seg_shape(s), is_normal(usegs(p), !p_is_abs(p)), sym_step_ok(p, s),
+        !(fa && !at0 && p.len() == 0),
+    ensures usegs(sym_push_text(p, s, fa, at0)) =~= norm_step(usegs(p), s, !p_is_abs(p)),
+        p_is_abs(sym_push_text(p, s, fa, at0)) == p_is_abs(p),
+{
+    reveal(push_text0);
+    let rel = !p_is_abs(p);
+    let n = usegs(p);
+    let l = segs(p);
+    if is_dot(s) {
+    } else if is_dotdot(s) {
+        if (p_is_empty(p) && rel) || (!p_is_empty(p) && is_dotdot(last_seg(p))) {
+            // push "..": no colon, not empty
+            assert(!has_colon(sq2(46, 46))) by { assert(!cls(C_CS, 46u8)); lemma_first_of_none(sq2(46, 46), 0, C_CS); }
+            lemma_push_list(p, sq2(46, 46), fa, at0);
+            assert(s =~= sq2(46, 46));
+            if !p_is_empty(p) {
+                lemma_last_seg(p);
+                // the last segment is ".." so it is not the shield: it belongs to usegs
+                if l.len() == 1 { assert(!is_dot(l[0])); }
+                assert(n.len() > 0 && n.last() == l.last());
+                if fa && is_shield3(p) { assert(l.last() == sq0()); }
+            }
+        } else if !p_is_empty(p) {
+            lemma_pop_list(p);
+            lemma_last_seg(p);
+            let r = p.subrange(0, pop_cut(p));
+            assert(segs(r) =~= l.drop_last());
+            if l.len() > 0 && is_dot(l[0]) {
+                // shielded: l = ["."] + n, n non-empty (lone shield excluded)
+                assert(l.len() >= 2);
+                assert(l.drop_last().len() >= 1 && l.drop_last()[0] == l[0]);
+                assert(usegs(r) =~= n.drop_last());
+                assert(n.last() == l.last());
+            } else {
+                assert(n =~= l);
+                if l.len() >= 2 { assert(l.drop_last()[0] == l[0]); }
+            }
+            lemma_seg_start_of(p, p_first_off(p), p.len() as int);
+            assert(r.len() >= p_first_off(p));
+            if p_is_abs(p) { assert(r[0] == p[0]); }
+            else if r.len() > 0 { assert(r[0] == p[0]); }
+        }
+    } else if s.len() > 0 || !p_is_empty(p) {
+        lemma_push_list(p, s, fa, at0);
+        let r = push_text0(p, s, fa, at0);
+        if p_is_empty(p) {
+            if at0 && has_colon(s) { assert(seq![sq1(46), s].drop_first() =~= seq![s]); }
+            assert(n =~= Seq::<Seq<u8>>::empty());
+            assert(norm_step(n, s, rel) =~= seq![s]);
+        } else if fa && is_shield3(p) {
+            assert(n =~= seq![sq0()]);
+            assert(seq![sq0(), s] =~= seq![sq0()].push(s));
+        } else {
+            if l.len() > 0 && is_dot(l[0]) { assert(l.push(s).drop_first() =~= l.drop_first().push(s)); assert(l.push(s)[0] == l[0]); }
+            else if l.len() > 0 { assert(l.push(s)[0] == l[0]); }
+            else { }
+        }
+    }
+}
+} // verus!
+verus! {
+pub proof fn lemma_sym_push_shape(p: Seq<u8>, s: Seq<u8>, fa: bool, at0: bool)
+    requires path_shape(p), seg_shape(s),
+    ensures path_shape(sym_push_text(p, s, fa, at0)),
+{
+    if is_dot(s) { }
+    else if is_dotdot(s) {
+        if (p_is_empty(p) && !p_is_abs(p)) || (!p_is_empty(p) && is_dotdot(last_seg(p))) {
+            assert(seg_shape(sq2(46, 46))) by { assert(!cls(C_SQF, 46u8)); }
+            lemma_push_shape(p, sq2(46, 46), fa, at0);
+        } else if !p_is_empty(p) {
+            let r = p.subrange(0, pop_cut(p));
+            lemma_seg_start_of(p, p_first_off(p), p.len() as int);
+            assert(forall|j: int| 0 <= j < r.len() ==> #[trigger] r[j] == p[j]);
+        }
+    } else if s.len() > 0 || !p_is_empty(p) { lemma_push_shape(p, s, fa, at0); }
+}
+/// every step of the symbolic fold stays outside the corner cases of sym_step_ok
+pub open spec fn sym_fold_ok(p: Seq<u8>, l: Seq<Seq<u8>>, fa: bool, at0: bool) -> bool
+    decreases l.len()
+{
+    if l.len() == 0 { true }
+    else {
+        let q = sym_fold(p, l.drop_last(), fa, at0).0;
+        sym_fold_ok(p, l.drop_last(), fa, at0) && sym_step_ok(q, l.last()) && !(fa && !at0 && q.len() == 0)
+    }
+}
+/// the RFC fold continued from a given stack
+pub open spec fn norm_fold_from(st: Seq<Seq<u8>>, l: Seq<Seq<u8>>, rel: bool) -> Seq<Seq<u8>>
+    decreases l.len()
+{
+    if l.len() == 0 { st } else { norm_step(norm_fold_from(st, l.drop_last(), rel), l.last(), rel) }
+}
+pub proof fn lemma_norm_fold_from_normal(st: Seq<Seq<u8>>, l: Seq<Seq<u8>>, rel: bool)
+    requires is_normal(st, rel),
+    ensures is_normal(norm_fold_from(st, l, rel), rel),
+    decreases l.len()
+{
+    if l.len() > 0 {
+        lemma_norm_fold_from_normal(st, l.drop_last(), rel);
+        lemma_norm_step_normal(norm_fold_from(st, l.drop_last(), rel), l.last(), rel);
+    }
+}
+/// continuing the fold from a normalized stack is the fold of the concatenation (RFC 5.2.3 merge, then 5.2.4)
+pub proof fn lemma_norm_fold_concat(a: Seq<Seq<u8>>, l: Seq<Seq<u8>>, rel: bool)
+    ensures norm_fold(a + l, rel) =~= norm_fold_from(norm_fold(a, rel), l, rel),
+    decreases l.len()
+{
+    if l.len() == 0 { assert(a + l =~= a); }
+    else {
+        assert((a + l).drop_last() =~= a + l.drop_last());
+        assert((a + l).last() == l.last());
+        lemma_norm_fold_concat(a, l.drop_last(), rel);
+        assert(norm_fold(a + l, rel) == norm_step(norm_fold((a + l).drop_last(), rel), (a + l).last(), rel));
+        assert(norm_fold(a + l.drop_last(), rel) == norm_fold_from(norm_fold(a, rel), l.drop_last(), rel));
+    }
+}
+/// C06, merge branch on segment level: symbolically appending the segments l to a path whose segments (without the
+/// shield) are normalized yields the RFC 5.2.4 / Errata 4547 fold continued over l - as long as no step hits one of the
+/// stated corner cases
+pub proof fn lemma_sym_fold_segs(p: Seq<u8>, l: Seq<Seq<u8>>, fa: bool, at0: bool)
+    requires path_shape(p), all_segs(l), is_normal(usegs(p), !p_is_abs(p)), sym_fold_ok(p, l, fa, at0),
+    ensures ({ let r = sym_fold(p, l, fa, at0).0;
+        &&& usegs(r) =~= norm_fold_from(usegs(p), l, !p_is_abs(p))
+        &&& p_is_abs(r) == p_is_abs(p) && path_shape(r) && is_normal(usegs(r), !p_is_abs(p)) }),
+    decreases l.len()
+{
+    let rel = !p_is_abs(p);
+    if l.len() > 0 {
+        let l0 = l.drop_last();
+        assert(all_segs(l0)) by { assert(forall|i: int| 0 <= i < l0.len() ==> l0[i] == l[i]); }
+        lemma_sym_fold_segs(p, l0, fa, at0);
+        let q = sym_fold(p, l0, fa, at0).0;
+        assert(seg_shape(l.last())) by { assert(l.last() == l[l.len() - 1]); }
+        lemma_sym_push_segs(q, l.last(), fa, at0);
+        lemma_sym_push_shape(q, l.last(), fa, at0);
+        lemma_norm_step_normal(usegs(q), l.last(), rel);
+    }
+}
+} // verus!
+verus! {
+/// the text the merge branch normalises before appending: the base path without its last segment, made to fit its context
+pub open spec fn res_base_dir(b: Seq<u8>) -> Seq<u8> {
+    if x_has_auth(b) && p_is_empty(r_path(b)) { fit_path(r_scheme(b), r_auth(b), sq1(47)) }
+    else { fit_path(r_scheme(b), r_auth(b), parent_text(r_path(b))) }
+}
+pub open spec fn res_dir(b: Seq<u8>) -> Seq<u8> {
+    if x_has_auth(b) && p_is_empty(r_path(b)) { res_base_dir(b) } else { normalize_text(res_base_dir(b), x_has_auth(b), false) }
+}
+/// segments of a relative, non-empty path do not change when a '/' is put in front
+pub proof fn lemma_segs_make_abs(x: Seq<u8>)
+    requires x.len() > 0, x[0] != 47,
+    ensures segs(make_abs(x)) =~= segs(x),
+{
+    let t = make_abs(x);
+    assert(t[0] == 47);
+    assert(t.len() == x.len() + 1);
+    lemma_split_shift(t, x);
+}
+/// C06, merge branch (reference with a relative non-empty path), on segment level: before the final trailing-'/' and
+/// set_path steps, the merged path has - without its shield - exactly the segments RFC 3986 5.2.3 + 5.2.4 (Errata 4547)
+/// prescribe: the normalisation fold over (segments of the base directory text) followed by (segments of the reference).
+/// Conditions: no step of the symbolic fold hits a stated corner case, and the base directory is not the shielded lone
+/// empty segment.
+pub proof fn lemma_res_merge_rfc(r: Seq<u8>, b: Seq<u8>)
+    requires ref_shape(r), ref_shape(b), x_has_sch(b),
+        !x_has_sch(r), !x_has_auth(r), r_path(r).len() > 0, r_path(r)[0] != 47,
+        path_shape(res_base_dir(b)),
+        !lone_empty_unshielded(res_base_dir(b), x_has_auth(b), false),
+        sym_fold_ok(res_dir(b), segs(r_path(r)), x_has_auth(b), false),
+    ensures ({
+        let fa = x_has_auth(b);
+        let bd = res_base_dir(b);
+        let m = sym_fold(res_dir(b), segs(r_path(r)), fa, false).0;
+        &&& usegs(m) =~= norm_fold(usegs(bd) + segs(r_path(r)), !p_is_abs(bd))
+        &&& p_is_abs(m) == p_is_abs(bd)
+    }),
+{
+    reveal(path_fits);
+    let fa = x_has_auth(b);
+    let bd = res_base_dir(b);
+    let dir = res_dir(b);
+    let rel = !p_is_abs(bd);
+    let l = segs(r_path(r));
+    lemma_ref_pieces(r);
+    assert(path_shape(r_path(r)));
+    lemma_segs_shape(r_path(r));
+    // usegs(dir) == norm_fold(usegs(bd))
+    if fa && p_is_empty(r_path(b)) {
+        // dir == bd == "/" (an authority is present, "/" needs no change)
+        assert(bd =~= sq1(47));
+        assert(usegs(bd) =~= Seq::<Seq<u8>>::empty());
+        assert(norm_fold(Seq::<Seq<u8>>::empty(), rel) =~= Seq::<Seq<u8>>::empty());
+        assert(is_normal(usegs(dir), !p_is_abs(dir)));
+    } else {
+        lemma_normalize_segs(bd, fa, false);
+        lemma_normalize_shape(bd, fa, false);
+        lemma_norm_fold_normal(segs(bd), rel);
+        let n = norm_segs(bd);
+        let sh = shield_seq(bd, fa, false);
+        if sh.len() > 0 { assert((sh + n).drop_first() =~= n); assert((sh + n)[0] == sq1(46)); }
+        else { assert(sh + n =~= n); if n.len() > 0 { assert(!is_dot(n[0])); } }
+        assert(usegs(dir) =~= n);
+        // the fold ignores a leading '.' of bd
+        let lb = segs(bd);
+        if lb.len() > 0 && is_dot(lb[0]) {
+            assert(lb =~= seq![sq1(46)] + lb.drop_first()) by { assert(lb[0] =~= sq1(46)); }
+            lemma_norm_fold_dot_front(lb.drop_first(), rel);
+        }
+        assert(n =~= norm_fold(usegs(bd), rel));
+    }
+    lemma_sym_fold_segs(dir, l, fa, false);
+    lemma_norm_fold_concat(usegs(bd), l, rel);
+}
+} // verus!
+verus! {
+/// the path resolve writes in the merge branch (res_merge_path, proved on the code) is: the symbolic fold m of
+/// lemma_res_merge_rfc, plus the empty last segment when the reference ends in a dot segment and m is not empty
+/// (the trailing '/' of RFC 5.2.4), installed by set_path (fit_path: only the documented disambiguations)
+pub proof fn lemma_res_merge_unfold(r: Seq<u8>, b: Seq<u8>)
+    requires r_path(r).len() > 0, r_path(r)[0] != 47,
+    ensures ({
+        let fa = x_has_auth(b);
+        let f = sym_fold(res_dir(b), segs(r_path(r)), fa, false);
+        res_merge_path(r, b) == fit_path(r_scheme(b), r_auth(b), if f.1 && !p_is_empty(f.0) { push_text(f.0, sq0(), fa, false) } else { f.0 })
+    }),
+{
+    if x_has_auth(b) { lemma_segs_make_abs(r_path(r)); }
+}
+} // verus!
+verus! {
+/// C09, meaning of the copying variant normalized(): its text (before the trailing-'/' step) has - without the shield -
+/// exactly the normalized segment sequence, as long as no step hits a stated corner case (the known finding "leading
+/// empty segments are dropped" is the first of them: an empty segment pushed onto an empty path)
+pub proof fn lemma_normalized_segs(p: Seq<u8>)
+    requires path_shape(p),
+        sym_fold_ok(if p_is_abs(p) { sq1(47) } else { sq0() }, segs(p), true, true),
+    ensures ({ let init = if p_is_abs(p) { sq1(47) } else { sq0() };
+        let m = sym_fold(init, segs(p), true, true).0;
+        usegs(m) =~= norm_segs(p) && p_is_abs(m) == p_is_abs(p) }),
+{
+    let init = if p_is_abs(p) { sq1(47) } else { sq0() };
+    let rel = !p_is_abs(p);
+    lemma_segs_shape(p);
+    assert(usegs(init) =~= Seq::<Seq<u8>>::empty());
+    assert(path_shape(init));
+    lemma_sym_fold_segs(init, segs(p), true, true);
+    lemma_norm_fold_concat(Seq::<Seq<u8>>::empty(), segs(p), rel);
+    assert(Seq::<Seq<u8>>::empty() + segs(p) =~= segs(p));
+    assert(norm_fold(Seq::<Seq<u8>>::empty(), rel) =~= Seq::<Seq<u8>>::empty());
+}
+} // verus!
